@@ -247,6 +247,7 @@ type world struct {
 	idKTm    map[string]string
 	resolved map[string]string
 
+	panicked      string // the last importbad call panicked with this
 	curImportAtom int // atom of the key being imported by the current op, -1 otherwise
 	returned []string // ids returned by successful create/import/rotate, in order (ops refer to them by index)
 }
@@ -454,6 +455,9 @@ type Op struct {
 	URI int `json:"uri,omitempty"`
 	// Stack: reopen / switch (when the instance is opened by it): the storage wrapper stack (see world.stack)
 	Stack int `json:"stack,omitempty"`
+	// Bad: importbad: the EC private key handed to ImportPrivateKey is not on the key type's curve: "curve" = a valid key
+	// of another curve, "offcurve" = the right curve's key with its point moved off the curve
+	Bad string `json:"bad,omitempty"`
 	// Inst: switch: the working key manager instance the caller goes on with (kept alive across other instances' calls)
 	Inst int `json:"inst,omitempty"`
 
@@ -670,7 +674,7 @@ func (w *world) register(pos int, op Op, putIDs []string, obsv *localkms.LocalKM
 		// the key type of what is stored under id now (also when the call was interrupted after its Put and the
 		// caller never got the id back): a later Rotate by the harness uses the keyset's own type
 		switch op.Kind {
-		case "create", "createx", "import":
+		case "create", "createx", "import", "importbad":
 			w.idKT(id, op.KT)
 		case "rotate":
 			w.idKT(id, w.ktOfID(w.refID(op.Ref)))
@@ -686,16 +690,43 @@ func (w *world) register(pos int, op Op, putIDs []string, obsv *localkms.LocalKM
 					a = w.poolKey(op).atom
 				}
 
+				if op.Kind == "importbad" {
+					a = 3000 + pos
+				}
+
 				w.matAtom[m] = a
 			}
 		}
 
 		_, prim := w.atomsOf(h)
 
-		if pub, _, e := obsv.ExportPubKeyBytes(id); e == nil {
-			w.pubAtom[string(pub)] = prim
-		}
+		func() {
+			defer func() { _ = recover() }() // (a keyset with a point off its curve makes the export panic)
+
+			if pub, _, e := obsv.ExportPubKeyBytes(id); e == nil {
+				w.pubAtom[string(pub)] = prim
+			}
+		}()
 	}
+}
+
+// badKey: an EC private key that is not on the curve of key type kt.
+func badKey(kt *ktInfo, bad string, key int) interface{} {
+	if bad == "offcurve" {
+		k, _ := pool[kt.name][key%2].priv.(*ecdsa.PrivateKey)
+		off := *k
+		off.PublicKey.Y = new(big.Int).Add(k.Y, big.NewInt(1))
+
+		return &off
+	}
+
+	other := map[string]string{"P-256": "ECDSAP384DER", "P-384": "ECDSAP521IEEEP1363", "P-521": "NISTP256ECDHKW", "SECP256K1": "ECDSAP256DER"}
+
+	if key%2 == 1 {
+		other = map[string]string{"P-256": "ECDSASecp256k1IEEEP1363", "P-384": "NISTP256ECDHKW", "P-521": "ECDSAP384DER", "SECP256K1": "NISTP521ECDHKW"}
+	}
+
+	return pool[other[kt.curve]][key%2].priv
 }
 
 func (w *world) poolKey(op Op) poolKey {
@@ -739,6 +770,22 @@ func (w *world) apply(pos int, op Op) Obs {
 		}
 
 		id, kh, err = w.kms.ImportPrivateKey(w.poolKey(op).priv, kmsapi.KeyType(op.KT), opts...)
+	case "importbad":
+		var opts []kmsapi.PrivateKeyOpts
+		if op.UID > 0 {
+			opts = append(opts, kmsapi.WithKeyID(userID(op.UID)))
+		}
+
+		func() {
+			defer func() {
+				if p := recover(); p != nil {
+					err = fmt.Errorf("panic: %v", p)
+					w.panicked = fmt.Sprint(p)
+				}
+			}()
+
+			id, kh, err = w.kms.ImportPrivateKey(badKey(ktByName(op.KT), op.Bad, op.Key), kmsapi.KeyType(op.KT), opts...)
+		}()
 	case "rotate":
 		old := w.refID(op.Ref)
 		kt := w.ktOfID(old)
@@ -751,7 +798,16 @@ func (w *world) apply(pos int, op Op) Obs {
 	case "get":
 		kh, err = w.kms.Get(w.refID(op.Ref))
 	case "export":
-		pub, _, err = w.kms.ExportPubKeyBytes(w.refID(op.Ref))
+		func() {
+			defer func() {
+				if p := recover(); p != nil {
+					err = fmt.Errorf("panic: %v", p)
+				}
+			}()
+
+			pub, _, err = w.kms.ExportPubKeyBytes(w.refID(op.Ref))
+		}()
+
 		isPub = true
 	case "reopen":
 		w.uri, w.stack = op.URI, op.Stack
@@ -862,7 +918,7 @@ func (w *world) apply(pos int, op Op) Obs {
 	}
 
 	// caller-chosen and bogus ids enter the table even when nothing was stored under them
-	if op.Kind == "import" && op.UID > 0 {
+	if (op.Kind == "import" || op.Kind == "importbad") && op.UID > 0 {
 		w.modelID(userID(op.UID), pos, obsv)
 	}
 
@@ -946,6 +1002,13 @@ func (w *world) coqOp(op Op) string {
 		}
 
 		o = fmt.Sprintf("KImport K_%s %s %d", op.KT, u, w.poolKey(op).atom)
+	case "importbad":
+		u := "None"
+		if op.UID > 0 {
+			u = fmt.Sprintf("(Some %d)", op.UID)
+		}
+
+		o = fmt.Sprintf("KImportBad K_%s %s %d", op.KT, u, 3000+op.seq)
 	case "rotate":
 		o = "KRotate " + w.idModel[w.refIDAt(op)]
 	case "get":
@@ -1033,13 +1096,22 @@ func runHistory(kind string, ops []Op, seed *hx.Rng, tr *hx.Trace) {
 			kt = ktByName(w.ktOfID(old))
 		}
 
+		if op.Kind == "importbad" {
+			if w.panicked != "" {
+				fail("import:key-not-on-curve-panics", fmt.Sprintf("op %d: ImportPrivateKey(%s) of an EC key that is not on the key type's curve (%s) panicked: %s", i, op.KT, op.Bad, w.panicked))
+				w.panicked = ""
+			} else if o.Out == "id" {
+				fail("import:key-not-on-curve-accepted", fmt.Sprintf("op %d: ImportPrivateKey(%s) accepted an EC key that is not on the key type's curve (%s) and returned id %q", i, op.KT, op.Bad, o.ID))
+			}
+		}
+
 		switch o.Out {
 		case "id", "idpub":
 			thumb := strings.HasPrefix(w.idModel[o.ID], "(KThumb")
 
 			// no thumbprint id is expected where the key manager cannot export the public key (ECDSASecp256k1DER), nor
 			// from a Rotate with another key type than the keyset's (outside the model)
-			if kt != nil && kt.asym && !thumb && kt.name != "ECDSASecp256k1DER" && op.RotKT == "" {
+			if kt != nil && kt.asym && !thumb && kt.name != "ECDSASecp256k1DER" && op.RotKT == "" && op.Kind != "importbad" {
 				if op.Kind == "import" {
 					if op.UID == 0 {
 						fail("kid:import-without-id-random", fmt.Sprintf("op %d: imported %s key got id %q, not the thumbprint of its public key", i, kt.name, o.ID))
@@ -1712,6 +1784,10 @@ func randomHistory(r *hx.Rng, n int) []Op {
 
 			kt := imp[r.Intn(len(imp))]
 			o = Op{Kind: "import", KT: kt.name, UID: r.Intn(4), Key: r.Intn(2), Ref: -1, Crash: -1}
+
+			if kt.imp == "ec" && r.Intn(5) == 0 {
+				o.Kind, o.Bad = "importbad", []string{"curve", "offcurve"}[r.Intn(2)]
+			}
 		case x < 70:
 			o = Op{Kind: "rotate", Ref: r.Intn(issued(ops) + 1), Crash: -1}
 			if r.Intn(8) == 0 {
@@ -1941,6 +2017,29 @@ func main() {
 
 				ops = append(ops, sw(1), Op{Kind: "get", Ref: 2, Crash: -1}, sw(0), Op{Kind: "get", Ref: 2, Crash: -1})
 				runHistory("sweep-instances", ops, next(), tr)
+			}
+		}
+	}
+
+	// EC private keys that are not on the key type's curve (another curve's key, a point off the curve), every EC key
+	// type, with and without a requested id, with ordinary imports under the same id around them
+	for _, kt := range append(append([]ktInfo{}, ktypes...), extraTypes...) {
+		if kt.imp != "ec" {
+			continue
+		}
+
+		for _, bad := range []string{"curve", "offcurve"} {
+			for _, uid := range []int{0, 1} {
+				for key := 0; key < 2; key++ {
+					runHistory("sweep-importbad", []Op{
+						{Kind: "create", KT: "ED25519", Ref: -1, Crash: -1},
+						{Kind: "importbad", KT: kt.name, UID: uid, Key: key, Bad: bad, Ref: -1, Crash: -1},
+						{Kind: "get", Ref: 0, Crash: -1},
+						{Kind: "import", KT: kt.name, UID: uid, Key: key, Ref: -1, Crash: -1},
+						{Kind: "importbad", KT: kt.name, UID: uid, Key: 1 - key, Bad: bad, Ref: -1, Crash: -1, FailAt: 1},
+						{Kind: "get", Ref: 1, Crash: -1},
+					}, next(), tr)
+				}
 			}
 		}
 	}
